@@ -3,6 +3,7 @@
 Fault enumeration (engine E2).  The injector (mc/props/c16_faults.py, bare zip + lxml) rewrites a deck:
 
   member level   retarget(rel)        every internal relationship of every reachable source -> Target="NULL"
+                                      (with form=dir also -> Target="/ppt", a name that is a directory, not a part)
                  del-part(part)       every reachable part deleted (its .rels item stays: orphan item)
                  del-rels(part|pkg)   every existing .rels item deleted (incl. /_rels/.rels)
                  ct-flip(entry)       every Default/Override: Extension / PartName case-swapped
@@ -16,7 +17,7 @@ Fault enumeration (engine E2).  The injector (mc/props/c16_faults.py, bare zip +
                                       the first <= 4 slides over their own names and over a pool with a gap
   byte level     trunc(offset)        zip cut at every member boundary, mid-member, central directory
                                       start/middle, end record start/middle, last byte
-                 nonzip(variant)      empty / text / PNG ;  nofile (path only)
+                 nonzip(variant)      empty / text / PNG ; empty directory and nofile (path only)
   form           stream | path | dir  (dir = the "directory-form package" irregularity)
 
 Oracle: mc.oracles.opc_ref reads the *faulted input* independently and decides
@@ -42,6 +43,12 @@ Deviations from DESIGN 4/C16 (stated, none weakens the quantifier):
     caching `target_partname`) is read so that the check does not trip C02's stale-cache defect.
   * a pair violation is minimised (each atom dropped in turn, re-executed) before it is reported, so a defect
     of one single fault has one signature.
+  * cost: a faulted input that is not going to be truncated is re-zipped without compression (own writer,
+    not fixtures.write_zip); during exploration the reference package is built from the very member dict the
+    input was written from, replay() re-reads the written zip / directory with opc_ref.read instead.
+  * two non-listed but in-spirit variants: a relationship voided to the *directory* name "/ppt" (only with
+    form=dir, where it differs from "NULL"), and a path to an empty directory (KeyError or
+    PackageNotFoundError accepted).
 """
 
 from __future__ import annotations
@@ -152,12 +159,15 @@ def reference_verdict(case, ref_input, arg, members=None):
             ref = opc_ref.read(ref_input)
     except zipfile.BadZipFile:
         if form == "stream":
-            return ("refuse", ("BadZipFile",), "not a zip (stream)")
+            return ("refuse", ("BadZipFile",), "not a zip, stream")
         if zipfile.is_zipfile(arg):
             return ("refuse", ("PackageNotFoundError", "BadZipFile"), "end record found but directory unreadable (path)")
-        return ("refuse", ("PackageNotFoundError",), "not a zip (path)")
+        return ("refuse", ("PackageNotFoundError",), "not a zip, path")
     except (zipfile.LargeZipFile, NotImplementedError, EOFError, OSError, RuntimeError) as e:  # corrupt member
         return ("skip", "reference cannot read a member: %s" % type(e).__name__)
+    if not ref.members and (case.get("byte") or {}).get("v") == "emptydir":
+        # a path to an empty directory: "not a package, given as a path" and "mandatory member missing" both apply
+        return ("refuse", ("KeyError", "PackageNotFoundError"), "empty directory")
     if F.CT_MEMBER not in ref.members:
         return ("refuse", ("KeyError",), "no [Content_Types].xml")
     if ref.ct_error:
@@ -330,6 +340,7 @@ def run_case(case, independent=False):
             exc = e
         if verdict[0] == "refuse":
             accepted = verdict[1]
+            info["refusal"] = verdict[2].split(" (")[0].split(" typed ")[0]
             classes = {"PackageNotFoundError": PackageNotFoundError, "BadZipFile": zipfile.BadZipFile,
                        "KeyError": KeyError, "ValueError": ValueError}
             if exc is None:
@@ -467,13 +478,15 @@ def _one(part, case, baseline=False):
     part.count("evaluations")
     kinds = F.kinds_only(case)
     part.outcome(kinds, res["outcome"])
-    part.count("outcome_" + ("opened" if res["outcome"] == "opened" else "skipped" if res["skip"] else "refused"))
+    part.count("outcome_" + ("opened" if res["outcome"] == "opened" else "skipped" if res["skip"] else "raised"))
     if res["skip"]:
         part.count("skipped_outside_statement")
         part.add("skip_reasons", res["skip"])
         return res
     if not baseline:
         part.count("nontrivial_count")
+    if res["info"].get("refusal"):
+        part.count("refusal: " + res["info"]["refusal"])
     if res["info"].get("dangling"):
         part.count("cases_with_dangling_rels")
     if "renumbered" in res["info"]:
@@ -542,6 +555,9 @@ def single_items(deck):
     items.append(_case(deck, byte={"k": "nofile"}, form="path"))
     kinds["nofile"] += 1
     n += 1
+    items.append(_case(deck, byte={"k": "nonzip", "v": "emptydir"}, form="path"))
+    kinds["nonzip"] += 1
+    n += 1
     return items, n, kinds, len(mf)
 
 
@@ -561,6 +577,9 @@ def pair_items(deck):
         n += 1
         items.append(dict(_case(deck, [f]), trunc_all=True))
         n += 2 * F.n_trunc_points(len(F.apply_faults(members, [f])))
+    for f in F.enum_dirname_retargets(members):
+        items.append(_case(deck, [f], form="dir"))
+        n += 1
     for label, mapping in F.enum_renames(members):
         _zb, rmembers = F.base_members(deck, mapping)
         rf = F.enum_member_faults(rmembers)
@@ -594,7 +613,7 @@ def run(ctx):
     for i, deck in enumerate(single_decks):
         its, n, k, nm = single_items(deck)
         if i % 9 == 0:
-            its[5 % len(its)]["sample"] = True
+            its[(5 + 11 * i) % len(its)]["sample"] = True
         items += its
         expected += n
         kinds.update(k)
@@ -622,8 +641,8 @@ def run(ctx):
     ctx.extra["skip_reasons"] = sorted(ctx.sets.get("skip_reasons", ()))
     if ctx.counters.get("evaluations", 0) != expected:
         raise HarnessError("evaluations %d != closed form %d" % (ctx.counters.get("evaluations", 0), expected))
-    if ctx.counters.get("outcome_opened", 0) < n_member_faults // 2 or ctx.counters.get("outcome_refused", 0) < 1000:
-        raise HarnessError("vacuous run: opened=%s refused=%s" % (ctx.counters.get("outcome_opened"), ctx.counters.get("outcome_refused")))
+    if ctx.counters.get("outcome_opened", 0) < n_member_faults // 2 or ctx.counters.get("outcome_raised", 0) < 1000:
+        raise HarnessError("vacuous run: opened=%s raised=%s" % (ctx.counters.get("outcome_opened"), ctx.counters.get("outcome_raised")))
 
 
 def replay(data):
